@@ -229,18 +229,76 @@ func c07Pools(p *core.Program, r *core.Report, reg *registryResult) {
 			why = append(why, fmt.Sprintf("pool %s creates %v, case asserts %s", gp.Name(), nt, t.Obj().Name()))
 		}
 		verSet := false
-		ast.Inspect(cl, func(n ast.Node) bool {
-			if as, ok := n.(*ast.AssignStmt); ok {
-				for i, l := range as.Lhs {
-					if sel, ok := l.(*ast.SelectorExpr); ok && sel.Sel.Name == "Ver" && i < len(as.Rhs) {
-						if id, ok := as.Rhs[i].(*ast.Ident); ok && isParam(info, create, id) {
-							verSet = true
+		setsVer := func(node ast.Node) {
+			ast.Inspect(node, func(n ast.Node) bool {
+				switch v := n.(type) {
+				case *ast.AssignStmt:
+					for i, l := range v.Lhs {
+						if sel, ok := l.(*ast.SelectorExpr); ok && sel.Sel.Name == "Ver" && i < len(v.Rhs) {
+							if id, ok := v.Rhs[i].(*ast.Ident); ok && isParam(info, create, id) {
+								verSet = true
+							}
+						}
+					}
+				case *ast.CallExpr:
+					// p.SetVersion(ver): a method that stores its parameter in Ver
+					if sel, ok := v.Fun.(*ast.SelectorExpr); ok && len(v.Args) == 1 {
+						if id, ok := ast.Unparen(v.Args[0]).(*ast.Ident); ok && isParam(info, create, id) {
+							if fn, _ := info.Uses[sel.Sel].(*types.Func); fn != nil {
+								cands := []*core.FuncInfo{p.FuncOf(fn)}
+								if cands[0] == nil {
+									// interface method: every implementation in the package must store it
+									cands = nil
+									for _, mfi := range p.Funcs {
+										if mfi.Pkg == create.Pkg && mfi.Obj.Name() == fn.Name() && core.RecvNamed(mfi.Obj) != nil {
+											cands = append(cands, mfi)
+										}
+									}
+								}
+								all := len(cands) > 0
+								for _, mfi := range cands {
+									stores := false
+									if mfi != nil && mfi.Decl.Body != nil {
+										ast.Inspect(mfi.Decl.Body, func(m ast.Node) bool {
+											if as, ok := m.(*ast.AssignStmt); ok {
+												for i, l := range as.Lhs {
+													if s2, ok := l.(*ast.SelectorExpr); ok && s2.Sel.Name == "Ver" && i < len(as.Rhs) {
+														if id2, ok := as.Rhs[i].(*ast.Ident); ok && isParam(mfi.Pkg.TypesInfo, mfi, id2) {
+															stores = true
+														}
+													}
+												}
+											}
+											return true
+										})
+									}
+									if !stores {
+										all = false
+									}
+								}
+								if all {
+									verSet = true
+								}
+							}
 						}
 					}
 				}
+				return true
+			})
+		}
+		setsVer(cl)
+		if !verSet {
+			// single-exit factories set the version once after the switch
+			after := false
+			for _, st := range create.Decl.Body.List {
+				if after {
+					setsVer(st)
+				}
+				if st.Pos() <= cl.Pos() && cl.End() <= st.End() {
+					after = true
+				}
 			}
-			return true
-		})
+		}
 		if !verSet {
 			why = append(why, "Ver is not re-assigned from the requested version after Get()")
 		}
@@ -294,9 +352,43 @@ func assignedInClear(p *core.Program, t *types.Named, seen map[*types.Named]bool
 	ast.Inspect(fi.Decl.Body, func(n ast.Node) bool {
 		switch v := n.(type) {
 		case *ast.AssignStmt:
-			for _, l := range v.Lhs {
-				if sel, ok := l.(*ast.SelectorExpr); ok {
-					out[sel.Sel.Name] = true
+			for i, l := range v.Lhs {
+				// shared storage: a field pointed at a package-level map/slice/pointer is the same
+				// object in every pack that was ever cleared
+				if len(v.Lhs) == len(v.Rhs) {
+					if id, ok := ast.Unparen(v.Rhs[i]).(*ast.Ident); ok {
+						if pv, ok := info.ObjectOf(id).(*types.Var); ok && pv.Pkg() != nil && pv.Parent() == pv.Pkg().Scope() {
+							switch pv.Type().Underlying().(type) {
+							case *types.Map, *types.Slice, *types.Pointer:
+								out["!shared:"+types.ExprString(l)+" = "+id.Name+" at "+p.Pos(v.Pos())] = true
+							}
+						}
+					}
+				}
+				switch lv := ast.Unparen(l).(type) {
+				case *ast.SelectorExpr:
+					out[lv.Sel.Name] = true
+					// a whole embedded struct replaced: all of its fields are assigned
+					if fv, ok := info.ObjectOf(lv.Sel).(*types.Var); ok && fv.IsField() {
+						if n := namedOf(fv.Type()); n != nil {
+							if _, isStruct := n.Underlying().(*types.Struct); isStruct && fv.Embedded() {
+								sub := map[string]*types.Var{}
+								flatFields(n, "", sub)
+								for k := range sub {
+									out[k] = true
+								}
+							}
+						}
+					}
+				case *ast.StarExpr:
+					// *this = T{...}: every field of the receiver's struct is assigned
+					if n := namedOf(info.TypeOf(lv)); n != nil {
+						sub := map[string]*types.Var{}
+						flatFields(n, "", sub)
+						for k := range sub {
+							out[k] = true
+						}
+					}
 				}
 			}
 		case *ast.CallExpr:
@@ -352,6 +444,11 @@ func c07Clear(p *core.Program, r *core.Report, reg *registryResult) {
 		}
 		sort.Strings(missing)
 		c := "lang/pack/udp.(*" + nm + ").Clear"
+		for k := range got {
+			if strings.HasPrefix(k, "!shared:") {
+				r.Viol("C07.clear", c+" shares storage", p.Pos(tn.Pos()), "Clear points a field at package-level storage ("+strings.TrimPrefix(k, "!shared:")+"): every pack cleared this way holds the same object, so what one use stores there is seen by the next holder")
+			}
+		}
 		if len(missing) > 0 {
 			// one violation per field so that a known finding covers exactly one field
 			for _, f := range missing {
